@@ -62,3 +62,34 @@ pub fn step(window: u64, ssthresh: u64, bytes_acked: u64, mtu: u16, recovery_sec
     core::mem::forget(c);
     f
 }
+
+/// C12.a (base case of the one-step obligations): a freshly constructed controller - NewReno or Cubic (Bbr::new trips an
+/// internal error of the Kani compiler and is covered by the E2 query e2_bbr_new_window_floor), any configured initial
+/// window, any initial MTU - already reports a window of at least two datagrams.
+pub fn new_window_floor(kind: u8, initial_window: u64, mtu: u16) -> u32 {
+    if mtu < 1200 || initial_window >= V62 {
+        return 0;
+    }
+    let Some(now) = crate::verif::mk_instant(1, 0) else { return 0 };
+    let w = match kind {
+        0 => {
+            let mut cfg = NewRenoConfig::default();
+            cfg.initial_window(initial_window);
+            let c = NewReno::new(Arc::new(cfg), now, mtu);
+            let w = c.window();
+            core::mem::forget(c);
+            w
+        }
+        1 => {
+            let mut cfg = crate::congestion::CubicConfig::default();
+            cfg.initial_window(initial_window);
+            let c = crate::congestion::Cubic::new(Arc::new(cfg), now, mtu);
+            let w = c.window();
+            core::mem::forget(c);
+            w
+        }
+        _ => return 0,
+    };
+    assert!(w >= 2 * mtu as u64, "a new controller reports a window below two datagrams");
+    1 << kind
+}
